@@ -256,5 +256,17 @@ func (valdec interfaceDecoder) Decode(dec *Decoder, p interface{}, tag byte) {
 type interfacePtrDecoder struct{}
 
 func (valdec interfacePtrDecoder) Decode(dec *Decoder, p interface{}, tag byte) {
+	if t := reflect.TypeOf(p).Elem(); t.Kind() == reflect.Ptr && t.Elem().NumMethod() > 0 {
+		// a pointer to an interface with methods (*error): see interfacePtrDecode
+		ptr := (*unsafe.Pointer)(reflect2.PtrOf(p))
+		if tag == TagNull {
+			*ptr = nil
+			return
+		}
+		v := reflect.New(t.Elem())
+		dec.decodeNonEmptyInterface(t.Elem(), tag, unsafe.Pointer(v.Pointer()))
+		*ptr = unsafe.Pointer(v.Pointer())
+		return
+	}
 	dec.decodeInterfacePtr(tag, (**interface{})(reflect2.PtrOf(p)))
 }
